@@ -663,6 +663,17 @@ class EngineRun:
             self.cfg = self._mk_cfg()
         elif k == "advance_clock":
             self.env.clock.advance(int(op["ms"]) * 1_000_000)
+        elif k == "restart":
+            # process restart: in-memory state and process-global caches are gone, the snapshot directory is what survives; the
+            # next turn boots from it.  `tie_mtimes`: the directory came back from a backup / checkout with coarse time stamps.
+            if op.get("tie_mtimes"):
+                for n in sorted(os.listdir(self.env.snap)):
+                    try:
+                        os.utime(os.path.join(self.env.snap, n), ns=(T0_MS * 1_000_000, T0_MS * 1_000_000))
+                    except OSError:
+                        pass
+            reset_globals()
+            self.state = build_state(self.world)
         else:
             raise ValueError("unknown op %r" % (k,))
         return None
